@@ -31,9 +31,8 @@ def digitsVal : Label → Nat → Option Nat
 def parseInt (s : Label) : Option Int :=
   let t := ((s.dropWhile isSpaceC).reverse.dropWhile isSpaceC).reverse
   let (neg, r) := match t with
-    | 45 :: rest => (true, rest)
-    | 43 :: rest => (false, rest)
-    | _ => (false, t)
+    | c :: rest => if c = 45 then (true, rest) else if c = 43 then (false, rest) else (false, t)
+    | [] => (false, t)
   match r with
   | [] => none
   | _ => match digitsVal r 0 with
